@@ -22,6 +22,9 @@ try:
     shutil.copy(demo, f"{d0}/demo.py")
     rc0, out0 = sh(["/venv/bin/python", "demo.py"], cwd=d0, env=env, timeout=600)
     rca, outa = sh(["git", "-C", wt, "apply", f"{src}/mutation_{k}.diff"])
+    if rca != 0:        # written against an earlier HEAD: try a 3-way merge
+        rca, outa = sh(["git", "-C", wt, "apply", "-3", f"{src}/mutation_{k}.diff"])
+        meta["rebased"] = rca == 0
     assert rca == 0, "patch does not apply to current /repo HEAD: " + outa
     rc1, out1 = sh(["/venv/bin/python", "demo.py"], cwd=d0, env=env, timeout=600)
     meta["demo_clean"] = {"exit": rc0, "tail": out0[-300:]}
